@@ -108,7 +108,7 @@ def _flatten_lists(ctx, ci: ClassInfo) -> Tuple[Optional[List[Optional[str]]], O
 
 def _unflatten_slots(ctx, ci: ClassInfo, children: List, aux: List) -> Dict[str, Optional[str]]:
     """field slot -> name of the flattened attribute it receives (None: unknown expr)."""
-    un = ci.methods.get("tree_unflatten")
+    un = ci.methods.get("tree_unflatten") or ctx.p.lookup_method(ci.qualname, "tree_unflatten")
     if un is None:
         raise AnalysisError(f"{ci.qualname}: tree_flatten without tree_unflatten")
     pos = [p.name for p in un.params if p.kind == "pos"]
@@ -774,7 +774,7 @@ def lat45(ctx):
         pos = sym(pname)
         conds = []
         for x in subterms(res):
-            if x.op == "phi" and x.args[0] not in conds:
+            if x.op in ("phi", "ifexp") and x.args[0] not in conds:
                 conds.append(x.args[0])
         if len(conds) > 4:
             raise AnalysisError(f"{ci.qualname}.get_nearest_neighbors: too many branches")
